@@ -215,8 +215,10 @@ ENUM_VOCAB = [("PUSH", "0"), ("PUSH", "1"), ("DUP1", None), ("DUP2", None), ("SW
               ("MLOAD", None), ("SLOAD", None), ("SSTORE", None)]
 
 
-ENUM_PREFIXES = [([("DUP1", None), ("DUP1", None), ("LOG0", None)], []), ([("DUP2", None), ("DUP2", None), ("SSTORE", None)], ["-storage"]),
-                 ([("SWAP2", None), ("DUP1", None), ("DUP1", None), ("DUP1", None), ("CALLDATACOPY", None)], [])]
+# (the split instruction reads deep stack positions, so the block's input stack is much deeper than what the sub-block after it touches)
+ENUM_PREFIXES = [([("DUP6", None), ("DUP6", None), ("LOG0", None)], []), ([("DUP7", None), ("DUP7", None), ("SSTORE", None)], ["-storage"]),
+                 ([("DUP8", None), ("DUP1", None), ("DUP1", None), ("CALLDATACOPY", None)], []),
+                 ([("DUP3", None), ("DUP3", None), ("LOG0", None)], ["-pop-uninterpreted"])]
 
 
 def enum_task(spec, summ):
